@@ -229,7 +229,7 @@ def gambit_variants(rng, cid):
     fc = cc.gen_file_case(cid, rng, fmt="gambit")
     fg = fc.fg
     kind = rng.choice(["truncate", "header", "probs", "players1", "players3", "sum-out", "sum-in", "sum-out", "sum-in", "sum-out",
-                       "sum-in", "huge", "numclash", "dupname", "sharedname", "contract", "badtoken"])
+                       "sum-in", "huge", "numclash", "dupname", "dupname", "dupname", "sharedname", "contract", "badtoken"])
     if kind == "truncate":
         t = fc.text[:rng.randrange(5, max(6, len(fc.text) - 2))].rstrip()
         return fc, t, "gambit", kind
@@ -325,7 +325,7 @@ def gambit_variants(rng, cid):
             cat = "duplicate"
         elif kind == "dupname":
             pl = rng.choice([1, 2])
-            if rng.random() < 0.5:
+            if rng.random() < 0.3:
                 g = ("c", 1, [("h", F(1, 2), ("p", pl, 1, "same", [("l", T(1, 1, -1)), ("r", T(2, 0, 0))], 0, None)),
                               ("t", F(1, 2), ("p", pl, 2, "same", [("l", T(3, 2, -2)), ("r", T(2, 0, 0))], 0, None))], 0, None)
             else:
@@ -333,7 +333,7 @@ def gambit_variants(rng, cid):
                 n1 = rng.choice([1, 3, 10])
                 n2 = n1 + rng.choice([1, 5, 10])
                 n3 = n2 + rng.choice([1, 7, 10])
-                mid_name = rng.choice([None, "other"])
+                mid_name = rng.choice(["other", "other", None])
                 g = ("c", 1, [("h", F(1, 3), ("p", pl, n1, "same", [("l", T(1, 1, -1)), ("r", T(2, 0, 0))], 0, None)),
                               ("m", F(1, 3), ("p", pl, n2, mid_name, [("l", T(4, 5, -5)), ("r", T(2, 0, 0))], 0, None)),
                               ("t", F(1, 3), ("p", pl, n3, "same", [("l", T(3, 2, -2)), ("r", T(2, 0, 0))], 0, None))], 0, None)
